@@ -47,6 +47,20 @@ pub fn gen(rng: &mut Rng, tier: Tier) -> Scn {
     for _ in 0..rng.range(0, 3) {
         s.ops.push(TimedOp { when: When::AfterPkt(rng.range(1, 120)), op: Op::Publish });
     }
+    // publish immediately FOLLOWED by an add at the same instant (no read in between): the late object is not
+    // part of that publication
+    if rng.chance(0.25) {
+        let i = s.objects.len();
+        let mut o = gen_object(rng, i, &s.spec, 40);
+        o.carousel = None;
+        s.objects.push(o);
+        let when = if rng.chance(0.5) { When::AfterPkt(rng.range(0, 60)) } else { When::AtUs(rng.range(0, 400_000)) };
+        s.ops.push(TimedOp { when: when.clone(), op: Op::Publish });
+        s.ops.push(TimedOp { when, op: Op::Add(i) });
+        if rng.chance(0.5) {
+            s.ops.push(TimedOp { when: When::AtUs(rng.range(400_000, 1_500_000)), op: Op::Publish });
+        }
+    }
     // the first objects are not always published right away
     if rng.chance(0.3) {
         if let Some(p) = s.ops.iter().position(|t| t.op == Op::Publish) {
